@@ -13472,6 +13472,18 @@ pattern:
 					break class
 
 				case '\\':
+					// Unicode property escapes can also be used inside a character class
+					if tail := pattern[i:]; isUnicode && (strings.HasPrefix(tail, "p{") || strings.HasPrefix(tail, "P{")) {
+						if p.options.unsupportedJSFeatures.Has(compat.RegexpUnicodePropertyEscapes) {
+							if end := strings.IndexByte(tail, '}'); end >= 0 {
+								what = "Unicode property escapes in regular expressions are not available"
+								r = logger.Range{Loc: logger.Loc{Start: loc.Start + int32(i)}, Len: int32(end) + 2}
+								isUnsupported = true
+								break pattern
+							}
+						}
+					}
+
 					i++ // Skip the escaped character
 				}
 			}
